@@ -122,7 +122,25 @@ fn corpus(g: &mut Gen, prop: &str) {
 pub fn run_property(g: &mut Gen, p: &str) -> bool {
     corpus(g, p);
     match p {
+        "C01" => c01(g),
+        "C02" => c02(g),
         "C03" => c03(g),
+        "C04" => c04(g),
+        "C05" => c05(g),
+        "C06" => c06(g),
+        "C07" => c07(g),
+        "C08" => c08(g),
+        "C09" => c09(g),
+        "C10" => c10(g),
+        "C11" => c11(g),
+        "C12" => c12(g),
+        "C13" => c13(g),
+        "C14" => c14(g),
+        "C15" => c15(g),
+        "C16" => c16(g),
+        "C17" => c17(g),
+        "C18" => c18(g),
+        "C19" => c19(g),
         _ => return false,
     }
     true
@@ -142,18 +160,30 @@ fn maybe_install_eid(s: &mut Session, r: &mut Rng, c: &Call) {
     }
 }
 
+fn pbuf(r: &mut Rng, base: usize, spread: u64) -> Vec<u8> {
+    let cap = base + r.below(spread + 1) as usize;
+    let k = r.below(3);
+    poison(r, cap, k)
+}
+
+fn buf_for(r: &mut Rng, c: &Call) -> Vec<u8> {
+    let n = expected_len(c).unwrap_or(12);
+    let cap = n + match r.below(3) { 0 => 0, 1 => 1, _ => 1 + r.below(40) as usize };
+    let k = r.below(3);
+    poison(r, cap, k)
+}
+
 fn encode_case(g: &mut Gen, stratum: &str, key: (bool, u32), refuse: bool, total: Option<usize>) {
     let cfg = gen_cfg(&mut g.rng);
     g.case(stratum, &cfg, |s, r| {
         let c = gen_call(r, key, refuse, total);
         maybe_install_eid(s, r, &c);
-        let n = expected_len(&c).unwrap_or(12);
-        let cap = n + match r.below(3) { 0 => 0, 1 => 1, _ => 1 + r.below(40) as usize };
-        let k = r.below(3);
-        let buf = poison(r, cap, k);
+        let buf = buf_for(r, &c);
         s.op(enc_op(&c, buf));
     });
 }
+
+const BODY_KEYS: [(bool, u32); 5] = [(true, 20), (true, 30), (false, 31), (true, 32), (false, 33)];
 
 fn c03(g: &mut Gen) {
     let per = g.n(30, 1200);
@@ -165,10 +195,963 @@ fn c03(g: &mut Gen) {
     // every packet length from 12 up to (and a little beyond) the SMBus maximum, on every body-carrying encoder
     let reps = g.n(1, 8);
     for total in 12..=262usize {
-        for key in [(true, 20u32), (true, 30), (false, 31), (true, 32), (false, 33)] {
+        for key in BODY_KEYS {
             for _ in 0..reps {
                 encode_case(g, "len", key, false, Some(total));
             }
         }
+    }
+}
+
+// ------------------------------------------------------------------------------------------------ C04
+fn c04_case(g: &mut Gen, stratum: &str, cfg: &Cfg, key: (bool, u32), total: Option<usize>, dest: Option<u8>) {
+    g.case(stratum, cfg, |s, r| {
+        let mut c = gen_call(r, key, false, total);
+        if let Some(d) = dest {
+            let i = if c.id >= 30 || c.req { 0 } else { 1 };
+            c.nums[i] = d as u32;
+        }
+        maybe_install_eid(s, r, &c);
+        let buf = buf_for(r, &c);
+        if let Obs::Enc(Some(n), out) = s.op(enc_op(&c, buf)) {
+            if n <= out.len() && n >= 3 {
+                // the length probe on prefixes: 3 bytes, 4 bytes, a random prefix, the whole packet,
+                // and the 3-byte prefix with a random continuation of the same length as the packet
+                let mut ks = vec![3usize, 4.min(n), n];
+                ks.push(3 + r.below((n - 2) as u64) as usize);
+                for k in ks {
+                    s.op(Op::GetLength(out[..k].to_vec()));
+                }
+            }
+        }
+    });
+}
+
+fn c04(g: &mut Gen) {
+    let per = g.n(12, 300);
+    for key in all_keys() {
+        for _ in 0..per {
+            let cfg = gen_cfg(&mut g.rng);
+            c04_case(g, "enc", &cfg, key, None, None);
+        }
+    }
+    // all 128 x 128 address pairs (thorough: on one encoder of every family; quick: a seeded 1/16 of them)
+    let fams: Vec<(bool, u32)> = if g.thorough { vec![(true, 2), (false, 4), (true, 20), (false, 32)] } else { vec![(true, 2)] };
+    for key in fams {
+        for src in 0..128u32 {
+            for dst in 0..128u32 {
+                if !g.thorough && g.rng.below(16) != 0 {
+                    continue;
+                }
+                // both the 7-bit value and the same value with bit 7 set name the same SMBus address
+                let hi_s = if g.rng.chance(1, 2) { 0x80 } else { 0 };
+                let hi_d = if g.rng.chance(1, 2) { 0x80 } else { 0 };
+                let cfg = simple_cfg(src as u8 | hi_s);
+                c04_case(g, "addr", &cfg, key, None, Some(dst as u8 | hi_d));
+            }
+        }
+    }
+    // body sizes: everything around the SMBus block limit enumerated, beyond it refused
+    let reps = g.n(1, 6);
+    for total in (10..=300usize).filter(|t| *t < 40 || *t >= 236) {
+        for key in BODY_KEYS {
+            for _ in 0..reps {
+                let cfg = gen_cfg(&mut g.rng);
+                c04_case(g, if total > 259 { "oversize" } else { "size" }, &cfg, key, Some(total.max(if key.1 == 20 { 14 } else { 10 })), None);
+            }
+        }
+    }
+}
+
+// ------------------------------------------------------------------------------------------------ C05
+fn c05(g: &mut Gen) {
+    let per = g.n(40, 1500);
+    for key in all_keys() {
+        for _ in 0..per {
+            encode_case(g, "enc", key, false, None);
+        }
+    }
+    // the transport header helper on (source, destination) pairs: exhaustive in thorough
+    let cfg = simple_cfg(0);
+    for src in 0..256u32 {
+        if !g.thorough && src % 16 != (g.rng.below(16) as u32) {
+            continue;
+        }
+        g.case("trhdr", &cfg, |s, _| {
+            for dst in 0..256u32 {
+                s.op(Op::Hdr { what: 10, fld: src, raw: vec![], v: dst });
+            }
+        });
+    }
+}
+
+// ------------------------------------------------------------------------------------------------ C06
+fn c06(g: &mut Gen) {
+    let per = g.n(60, 2500);
+    for id in REQ_IDS {
+        if id == 20 { continue; }
+        for _ in 0..per {
+            encode_case(g, "req", (true, id), false, None);
+        }
+    }
+    // every value of each single byte parameter
+    let cfg = simple_cfg(0x23);
+    for (id, slot) in [(1u32, 2usize), (6, 1), (7, 1), (8, 2), (8, 3), (10, 1), (15, 1), (16, 1)] {
+        g.case("sweep", &cfg, |s, r| {
+            for v in 0..256u32 {
+                let mut c = gen_call(r, (true, id), false, None);
+                c.nums[slot] = v;
+                let buf = buf_for(r, &c);
+                s.op(enc_op(&c, buf));
+            }
+        });
+    }
+    // every enum variant
+    g.case("enums", &cfg, |s, r| {
+        for op in 0..4u32 { let c = Call { req: true, id: 1, nums: vec![0x34, op, 0x56], lists: vec![] }; let b = buf_for(r, &c); s.op(enc_op(&c, b)); }
+        for q in [0xFFu32, 0, 1, 2, 3] { let c = Call { req: true, id: 4, nums: vec![0x34, q], lists: vec![] }; let b = buf_for(r, &c); s.op(enc_op(&c, b)); }
+        for op in 0..3u32 { let c = Call { req: true, id: 8, nums: vec![0x34, op, 0x11, 0x22], lists: vec![] }; let b = buf_for(r, &c); s.op(enc_op(&c, b)); }
+        for mt in [0u32, 5, 6, 0x7E, 0x7F, 0xFF] { let c = Call { req: true, id: 15, nums: vec![0x34, 0x45, mt], lists: vec![] }; let b = buf_for(r, &c); s.op(enc_op(&c, b)); }
+    });
+    // 0..7 routing entries (and the refused 8+)
+    for n in 0..12usize {
+        g.case("entries", &cfg, |s, r| {
+            let c = Call { req: true, id: 9, nums: vec![r.addr() as u32], lists: (0..n).map(|_| r.bytes(4)).collect() };
+            let b = buf_for(r, &c);
+            s.op(enc_op(&c, b));
+        });
+    }
+}
+
+// ------------------------------------------------------------------------------------------------ C07
+fn c07(g: &mut Gen) {
+    let per = g.n(120, 5000);
+    for id in RESP_IDS {
+        for _ in 0..per {
+            encode_case(g, "resp", (false, id), false, None);
+        }
+    }
+    // every completion code x every enum combination x an installed EID
+    let cfg = gen_cfg(&mut g.rng);
+    g.case("combos", &cfg, |s, r| {
+        for cc in 0..6u32 {
+            for a in 0..2u32 {
+                for b in 0..3u32 {
+                    s.op(Op::SetEid(false, r.byte()));
+                    let c = Call { req: false, id: 1, nums: vec![cc, r.addr() as u32, a, b], lists: vec![] };
+                    let bf = buf_for(r, &c); s.op(enc_op(&c, bf));
+                }
+                for b in 0..4u32 {
+                    for f in 0..2u32 {
+                        s.op(Op::SetEid(false, r.byte()));
+                        let c = Call { req: false, id: 2, nums: vec![cc, r.addr() as u32, a, b, f], lists: vec![] };
+                        let bf = buf_for(r, &c); s.op(enc_op(&c, bf));
+                    }
+                }
+            }
+        }
+    });
+    // every EID value, installed through either accessor (only the response half's counts)
+    g.case("eids", &cfg, |s, r| {
+        for e in 0..256u32 {
+            s.op(Op::SetEid(false, e as u8));
+            if r.chance(1, 3) { s.op(Op::SetEid(true, r.byte())); }
+            let id = 1 + (e % 2);
+            let c = if id == 1 { Call { req: false, id, nums: vec![0, r.addr() as u32, 0, 0], lists: vec![] } }
+                    else { Call { req: false, id, nums: vec![0, r.addr() as u32, 0, 0, 0], lists: vec![] } };
+            let bf = buf_for(r, &c); s.op(enc_op(&c, bf));
+        }
+    });
+    // lists of every length 0..30 (and refused beyond), vendor fields 0..7
+    for n in 0..34usize {
+        g.case("types", &cfg, |s, r| {
+            let c = Call { req: false, id: 5, nums: vec![r.below(6) as u32, r.addr() as u32], lists: vec![r.bytes(n)] };
+            let bf = buf_for(r, &c); s.op(enc_op(&c, bf));
+        });
+    }
+    for n in 0..8usize {
+        g.case("vid", &cfg, |s, r| {
+            let c = Call { req: false, id: 6, nums: vec![r.below(6) as u32, r.addr() as u32, r.cbyte() as u32], lists: vec![r.bytes(n)] };
+            let bf = buf_for(r, &c); s.op(enc_op(&c, bf));
+        });
+    }
+}
+
+// ------------------------------------------------------------------------------------------------ C08
+fn c08(g: &mut Gen) {
+    let per = g.n(150, 6000);
+    for key in [(true, 20u32), (true, 31), (false, 31), (true, 32), (false, 32), (true, 33), (false, 33)] {
+        for _ in 0..per {
+            encode_case(g, "vend", key, false, None);
+        }
+    }
+    // every format byte
+    let cfg = simple_cfg(0x23);
+    g.case("formats", &cfg, |s, r| {
+        for f in 0..256u32 {
+            let mut c = gen_call(r, (true, 20), false, None);
+            c.nums[1] = f;
+            let b = buf_for(r, &c);
+            s.op(enc_op(&c, b));
+        }
+    });
+    // bodies of every length the frame can carry (and just beyond)
+    let reps = g.n(1, 4);
+    for total in 10..=264usize {
+        for key in [(true, 20u32), (true, 31), (true, 32), (true, 33)] {
+            if key.1 == 20 && total < 14 { continue; }
+            for _ in 0..reps {
+                encode_case(g, "len", key, false, Some(total));
+            }
+        }
+    }
+}
+
+// ------------------------------------------------------------------------------------------------ C16
+fn c16(g: &mut Gen) {
+    let per = g.n(25, 1000);
+    for key in all_keys() {
+        for i in 0..per {
+            let refuse = can_refuse(key) && i % 4 == 3;
+            let cfg = gen_cfg(&mut g.rng);
+            g.case(if refuse { "refuse" } else { "enc" }, &cfg, |s, r| {
+                let c = gen_call(r, key, refuse, None);
+                maybe_install_eid(s, r, &c);
+                let n = expected_len(&c).unwrap_or(12 + r.below(30) as usize);
+                // the same call three times: exact capacity / zero poison, +1 / 0xFF poison, +k / noise
+                let caps = [n, n + 1, n + 1 + r.below(40) as usize];
+                for (k, cap) in caps.iter().enumerate() {
+                    let b = poison(r, *cap, k as u64);
+                    s.op(enc_op(&c, b));
+                }
+            });
+        }
+    }
+    // the four argument limits at limit-1, limit, limit+1
+    let cfg = simple_cfg(0x23);
+    g.case("limits", &cfg, |s, r| {
+        for eid in [0u32, 1, 2, 0xFD, 0xFE, 0xFF] {
+            let c = Call { req: true, id: 1, nums: vec![0x34, 0, eid], lists: vec![] };
+            for k in 0..2 { let b = poison(r, 14 + k, k as u64 + 1); s.op(enc_op(&c, b)); }
+        }
+        for n in [6usize, 7, 8, 9] {
+            let c = Call { req: true, id: 9, nums: vec![0x34], lists: (0..n).map(|_| r.bytes(4)).collect() };
+            for k in 0..2 { let b = poison(r, 13 + 4 * n + k, k as u64 + 1); s.op(enc_op(&c, b)); }
+        }
+        for n in [29usize, 30, 31, 32] {
+            let c = Call { req: false, id: 5, nums: vec![0, 0x34], lists: vec![r.bytes(n)] };
+            for k in 0..2 { let b = poison(r, 14 + n + k, k as u64 + 1); s.op(enc_op(&c, b)); }
+        }
+        for f in [0u32, 1, 2, 3, 0xFF] {
+            let c = Call { req: true, id: 20, nums: vec![0x34, f, 0x12345678, 9], lists: vec![r.bytes(5)] };
+            for k in 0..2 { let b = poison(r, 19 + k, k as u64 + 1); s.op(enc_op(&c, b)); }
+        }
+    });
+    // sizes around the frame limit: everything that fits must succeed, everything beyond be refused
+    let reps = g.n(1, 4);
+    for total in 236..=270usize {
+        for key in BODY_KEYS {
+            for _ in 0..reps {
+                let cfg = gen_cfg(&mut g.rng);
+                g.case("size", &cfg, |s, r| {
+                    let c = gen_call(r, key, false, Some(total));
+                    for k in 0..2u64 { let b = poison(r, total + k as usize * 3, k + 1); s.op(enc_op(&c, b)); }
+                });
+            }
+        }
+    }
+}
+
+// ------------------------------------------------------------------------------------------------ packets
+/// a control message body (bytes 9..) built independently of the library
+fn ctl_body(rq: bool, d: bool, rsvd: bool, inst: u8, cmd: u8, cc: Option<u8>, data: &[u8]) -> Vec<u8> {
+    let mut b = vec![((rq as u8) << 7) | ((d as u8) << 6) | ((rsvd as u8) << 5) | (inst & 31), cmd];
+    if let Some(c) = cc { b.push(c); }
+    b.extend_from_slice(data);
+    b
+}
+
+fn fixed_req_len(cmd: u8) -> Option<usize> { match cmd { 1 => Some(2), 4 | 6 | 7 => Some(1), 8 => Some(3), _ => None } }
+fn fixed_resp_len(cmd: u8) -> Option<usize> { match cmd { 1 => Some(3), 2 => Some(4), 3 => Some(16), 4 => Some(5), 8 => Some(4), 9 => Some(1), _ => None } }
+
+/// a mostly-valid packet from the independent builder; `valid_hdr` keeps version / IC / type in range
+fn gen_packet(r: &mut Rng, valid_hdr: bool) -> Vec<u8> {
+    let src = r.below(128) as u8;
+    let dst = r.below(128) as u8;
+    let b4 = if valid_hdr || r.chance(5, 6) { 0x01 } else { r.pick(&[0x00u8, 0x02, 0x11, 0x81, 0x0F, 0xF1, 0x21]) };
+    let ty = if valid_hdr || r.chance(5, 6) { r.pick(&[0x00u8, 0x00, 0x00, 0x05, 0x06, 0x7E, 0x7F]) } else { r.pick(&[0x80u8, 0x85, 0xFE, 0xFF, 0x01, 0x04, 0x07, 0x7D, 0x40]) };
+    let flags = if r.chance(3, 4) { 0xC8 } else { r.byte() };
+    let src_eid = if r.chance(3, 4) { src } else { r.byte() };
+    let body = if ty == 0 {
+        let rq = r.chance(3, 5);
+        let cmd = if r.chance(3, 4) { r.below(9) as u8 } else if r.chance(1, 2) { 9 + r.below(14) as u8 } else { r.pick(&[0x15u8, 0x7F, 0x80, 0xFE, 0xFF]) };
+        let inst = if r.chance(1, 2) { 0 } else { r.below(32) as u8 };
+        let d = r.chance(1, 8);
+        let rs = r.chance(1, 8);
+        let fixed = if rq { fixed_req_len(cmd) } else { fixed_resp_len(cmd) };
+        let dl = match (fixed, r.below(6)) {
+            (Some(f), 0..=3) => f,
+            (Some(f), 4) => f + 1,
+            (Some(f), _) => f.saturating_sub(1),
+            (None, 0..=3) => r.below(5) as usize,
+            (None, _) => r.pick(&[16usize, 17, 40, 200, 244]),
+        };
+        let cc = if rq { None } else { Some(if r.chance(2, 3) { 0 } else if r.chance(3, 4) { 1 + r.below(5) as u8 } else { r.pick(&[6u8, 7, 0x80, 0xFF]) }) };
+        let mut data = r.bytes(dl);
+        if rq && cmd == 1 && !data.is_empty() && r.chance(3, 4) { data[0] = r.pick(&[0u8, 1, 3]); }
+        if rq && cmd == 6 && !data.is_empty() && r.chance(3, 4) { data[0] = r.below(4) as u8; }
+        ctl_body(rq, d, rs, inst, cmd, cc, &data)
+    } else {
+        let big = r.chance(1, 10);
+        let n = r.below(if big { 248 } else { 24 }) as usize;
+        r.bytes(n)
+    };
+    build_packet(dst, src, b4, r.byte(), src_eid, flags, ty, &body)
+}
+
+/// one of the corruptions of a packet
+fn corrupt(r: &mut Rng, p: &[u8]) -> Vec<u8> {
+    let mut q = p.to_vec();
+    if q.is_empty() { return q; }
+    match r.below(6) {
+        0 => { let i = q.len() - 1; q[i] ^= 1 << r.below(8); }                 // PEC bit flip
+        1 => { let i = q.len() - 1; q[i] = q[i].wrapping_add(1 + r.below(255) as u8); } // random wrong PEC
+        2 => { let i = r.below(q.len() as u64) as usize; q[i] ^= 1 << r.below(8); }     // single bit anywhere
+        3 => {                                                                  // burst of up to 8 bits
+            let start = r.below((q.len() * 8) as u64) as usize;
+            let pat = 1 + r.below(255) as u16;
+            for k in 0..8 { if pat & (1 << k) != 0 { let bit = start + k; if bit / 8 < q.len() { q[bit / 8] ^= 0x80 >> (bit % 8); } } }
+        }
+        4 => { let i = r.below(q.len() as u64) as usize; q[i] = r.byte(); }     // byte substitution
+        _ => { let i = r.below(q.len() as u64) as usize; q.truncate(i); }       // truncation
+    }
+    q
+}
+
+/// the output of a random library encoder (S1)
+fn encoder_packet(s: &mut Session, r: &mut Rng) -> Option<Vec<u8>> {
+    let keys = all_keys();
+    let key = keys[r.below(keys.len() as u64) as usize];
+    let c = gen_call(r, key, false, None);
+    let buf = vec![0u8; expected_len(&c).unwrap_or(12) + 2];
+    // encoded on a scratch context so that the case under test records only the receive path
+    let o = encode_obs(s.alt, c.req, c.id, &c.nums, &c.lists, &buf);
+    if let Obs::Enc(Some(n), out) = o { Some(out[..n].to_vec()) } else { None }
+}
+
+fn any_packet(s: &mut Session, r: &mut Rng) -> Vec<u8> {
+    match r.below(10) {
+        0..=2 => encoder_packet(s, r).unwrap_or_else(|| gen_packet(r, true)),
+        3..=6 => gen_packet(r, true),
+        7 => gen_packet(r, false),
+        8 => { let p = gen_packet(r, true); corrupt(r, &p) }
+        _ => { let big = r.chance(1, 8); let n = r.below(if big { 260 } else { 20 }) as usize; r.bytes(n) }
+    }
+}
+
+/// the deterministic grid of control packets (S2): every command code x request/response x completion code x
+/// data length around the fixed one x PEC right/wrong
+fn control_grid(full: bool, r: &mut Rng, f: &mut dyn FnMut(&str, Vec<u8>)) {
+    let cmds: Vec<u8> = (0..=0x16u8).chain([0x7F, 0x80, 0xFF]).collect();
+    for &cmd in &cmds {
+        for rq in [true, false] {
+            let ccs: Vec<Option<u8>> = if rq { vec![None] } else { (0..=7u8).chain([0xFF]).map(Some).collect() };
+            for cc in ccs {
+                let fixed = if rq { fixed_req_len(cmd) } else { fixed_resp_len(cmd) };
+                let mut lens: Vec<usize> = vec![0, 1, 2, 3, 4, 5, 16, 17];
+                if let Some(fx) = fixed { lens.push(fx); lens.push(fx + 1); }
+                if full { lens.push(40); lens.push(243); }
+                lens.sort(); lens.dedup();
+                for dl in lens {
+                    for bad_pec in [false, true] {
+                        if !full && r.below(3) != 0 && !(dl == fixed.unwrap_or(0)) { continue; }
+                        let inst = if r.chance(1, 2) { 0 } else { r.below(32) as u8 };
+                        let mut data = r.bytes(dl);
+                        if rq && cmd == 1 && dl > 0 { data[0] = r.below(5) as u8; }
+                        if rq && cmd == 6 && dl > 0 { data[0] = r.below(6) as u8; }
+                        let body = ctl_body(rq, false, false, inst, cmd, cc, &data);
+                        let src = r.below(128) as u8;
+                        let mut p = build_packet(r.below(128) as u8, src, 1, r.byte(), src, 0xC8, 0, &body);
+                        if bad_pec { let i = p.len() - 1; p[i] ^= 1 << r.below(8); }
+                        f(if rq { "grid-req" } else { "grid-resp" }, p);
+                    }
+                }
+            }
+        }
+    }
+    // header variants: version, reserved bits, IC, type
+    for b4 in [0x01u8, 0x00, 0x02, 0x0F, 0x11, 0x81, 0xF1] {
+        for ty in [0x00u8, 0x05, 0x06, 0x7E, 0x7F, 0x80, 0x85, 0xFE, 0xFF, 0x01, 0x04, 0x07, 0x7D] {
+            for bad_pec in [false, true] {
+                let body = if ty & 0x7F == 0 { ctl_body(true, false, false, 0, 2, None, &[]) } else { { let k_ = 1 + r.below(6) as usize; r.bytes(k_) } };
+                let src = r.below(128) as u8;
+                let mut p = build_packet(r.below(128) as u8, src, b4, r.byte(), src, 0xC8, ty, &body);
+                if bad_pec { let i = p.len() - 1; p[i] ^= 1 << r.below(8); }
+                f("grid-hdr", p);
+            }
+        }
+    }
+    // the short ones: every length 0..13 of a valid packet of every type, PEC refreshed or not
+    for ty in [0x00u8, 0x05, 0x06, 0x7E, 0x7F] {
+        let body = if ty == 0 { ctl_body(false, false, false, 0, 1, Some(0), &[1, 2, 3]) } else { vec![9, 8, 7, 6] };
+        let src = r.below(128) as u8;
+        let p = build_packet(r.below(128) as u8, src, 1, r.byte(), src, 0xC8, ty, &body);
+        for k in 0..=p.len() {
+            let mut q = p[..k].to_vec();
+            f("grid-trunc", q.clone());
+            if k >= 2 { let c = crc8(&q[..k - 1]); q[k - 1] = c; f("grid-trunc-pec", q); }
+        }
+        if ty == 0 {
+            for (rq, cc) in [(true, None), (false, Some(0u8)), (false, Some(3u8))] {
+                let b = ctl_body(rq, false, false, 0, 2, cc, &[]);
+                let p = build_packet(0x10, src, 1, 0x20, src, 0xC8, 0, &b);
+                for k in 9..=p.len() {
+                    let mut q = p[..k].to_vec();
+                    let c = crc8(&q[..k - 1]); q[k - 1] = c; f("grid-trunc-pec", q);
+                }
+            }
+        }
+    }
+}
+
+// ------------------------------------------------------------------------------------------------ C09
+fn c09(g: &mut Gen) {
+    let cfg0 = gen_cfg(&mut g.rng);
+    let mut grid: Vec<(String, Vec<u8>)> = Vec::new();
+    let full = g.thorough;
+    let mut r = g.rng.fork();
+    let reps = g.n(1, 6);
+    for _ in 0..reps {
+        control_grid(full, &mut r, &mut |s, p| grid.push((s.to_string(), p)));
+    }
+    for (s, p) in grid {
+        g.case(&s, &cfg0, |ses, _| { ses.op(Op::Decode(p)); });
+    }
+    let n = g.n(4000, 150_000);
+    for _ in 0..n {
+        let cfg = gen_cfg(&mut g.rng);
+        g.case("mix", &cfg, |s, r| {
+            let p = any_packet(s, r);
+            s.op(Op::Decode(p));
+        });
+    }
+    // mutations of encoder outputs: every truncation point and substitutions with and without PEC fix-up
+    let m = g.n(40, 1500);
+    for _ in 0..m {
+        let cfg = gen_cfg(&mut g.rng);
+        g.case("mut", &cfg, |s, r| {
+            let p = encoder_packet(s, r).unwrap_or_else(|| gen_packet(r, true));
+            for k in 0..=p.len().min(20) { s.op(Op::Decode(p[..k].to_vec())); }
+            for _ in 0..6 {
+                let mut q = p.clone();
+                let i = r.below(q.len() as u64) as usize;
+                q[i] = r.cbyte();
+                s.op(Op::Decode(q.clone()));
+                let l = q.len(); let c = crc8(&q[..l - 1]); q[l - 1] = c;
+                s.op(Op::Decode(q));
+            }
+        });
+    }
+}
+
+// ------------------------------------------------------------------------------------------------ C10
+fn c10(g: &mut Gen) {
+    let full = g.thorough;
+    let mut r = g.rng.fork();
+    let mut grid: Vec<(String, Vec<u8>)> = Vec::new();
+    let reps = g.n(1, 4);
+    for _ in 0..reps { control_grid(full, &mut r, &mut |s, p| grid.push((s.to_string(), p))); }
+    for (s, p) in grid {
+        let cfg = gen_cfg(&mut g.rng);
+        g.case(&s, &cfg, |ses, r| {
+            ses.op(Op::Decode(p.clone()));
+            ses.op(Op::GetLength(p.clone()));
+            let b = pbuf(r, 64, 64);
+            ses.op(Op::Process(p, b));
+        });
+    }
+    // every operation byte and every selector on accepted Set EID / vendor support requests
+    for v in 0..256u32 {
+        let cfg = gen_cfg(&mut g.rng);
+        g.case("ops", &cfg, |s, r| {
+            let src = r.below(128) as u8;
+            let p = build_packet(0x10, src, 1, 0x20, src, 0xC8, 0, &ctl_body(true, false, false, 0, 1, None, &[v as u8, 1 + r.below(254) as u8]));
+            let b = poison(r, 64, 2); s.op(Op::Process(p, b));
+            let p = build_packet(0x10, src, 1, 0x20, src, 0xC8, 0, &ctl_body(true, false, false, 0, 6, None, &[v as u8]));
+            let b = poison(r, 64, 2); s.op(Op::Process(p, b));
+        });
+    }
+    // every length 0..259 of random bytes and of valid-prefix bytes
+    for len in 0..=262usize {
+        let cfg = gen_cfg(&mut g.rng);
+        g.case("len", &cfg, |s, r| {
+            let p = r.bytes(len);
+            s.op(Op::Decode(p.clone())); s.op(Op::GetLength(p.clone()));
+            let b = poison(r, 64, 0); s.op(Op::Process(p, b));
+            let mut q = gen_packet(r, true); q.resize(len, 0x5A);
+            if len >= 2 { let c = crc8(&q[..len - 1]); q[len - 1] = c; }
+            s.op(Op::Decode(q.clone())); s.op(Op::GetLength(q.clone()));
+            let b = poison(r, 64, 1); s.op(Op::Process(q, b));
+        });
+    }
+    // mixed traffic after a prior history
+    let n = g.n(2500, 100_000);
+    for _ in 0..n {
+        let cfg = gen_cfg(&mut g.rng);
+        g.case("mix", &cfg, |s, r| {
+            for _ in 0..r.below(3) { let p = any_packet(s, r); let b = poison(r, 64, 0); s.op(Op::Process(p, b)); }
+            let p = any_packet(s, r);
+            s.op(Op::Decode(p.clone()));
+            s.op(Op::GetLength(p.clone()));
+            let b = pbuf(r, 64, 64);
+            s.op(Op::Process(p, b));
+        });
+    }
+}
+
+// ------------------------------------------------------------------------------------------------ C17
+fn c17(g: &mut Gen) {
+    let cfg = gen_cfg(&mut g.rng);
+    // lengths 0..2
+    g.case("short", &cfg, |s, r| {
+        s.op(Op::GetLength(vec![]));
+        for _ in 0..20 { s.op(Op::GetLength(r.bytes(1))); s.op(Op::GetLength(r.bytes(2))); }
+        s.op(Op::GetLength(vec![0x20, 0x0F]));
+    });
+    // all 2^16 (byte 1, byte 2) pairs x several byte 0 values; each also with a random continuation
+    let b0s = g.n(2, 16);
+    for b1 in 0..256u32 {
+        let cfg = gen_cfg(&mut g.rng);
+        g.case("sweep", &cfg, |s, r| {
+            for b2 in 0..256u32 {
+                for _ in 0..b0s {
+                    let mut p = vec![r.cbyte(), b1 as u8, b2 as u8];
+                    if r.chance(1, 2) { let k = r.below(12) as usize; p.extend(r.bytes(k)); }
+                    s.op(Op::GetLength(p));
+                }
+            }
+        });
+    }
+    // command code 0x0F with every byte count, long continuations
+    g.case("cc0f", &cfg, |s, r| {
+        for b2 in 0..256u32 {
+            let mut p = vec![r.byte(), 0x0F, b2 as u8];
+            let k = r.below(260) as usize; p.extend(r.bytes(k));
+            s.op(Op::GetLength(p));
+        }
+    });
+}
+
+// ------------------------------------------------------------------------------------------------ C01
+fn c01(g: &mut Gen) {
+    let per = g.n(35, 2000);
+    for key in all_keys() {
+        for _ in 0..per {
+            let cfg = gen_cfg(&mut g.rng);
+            g.case("rt", &cfg, |s, r| {
+                let c = gen_call(r, key, false, None);
+                maybe_install_eid(s, r, &c);
+                let buf = buf_for(r, &c);
+                if let Obs::Enc(Some(n), out) = s.op(enc_op(&c, buf)) {
+                    if n <= out.len() { s.op(Op::Decode(out[..n].to_vec())); }
+                }
+            });
+        }
+    }
+    // all six completion codes on every response encoder
+    for id in RESP_IDS {
+        for cc in 0..6u32 {
+            let cfg = gen_cfg(&mut g.rng);
+            g.case("cc", &cfg, |s, r| {
+                let mut c = gen_call(r, (false, id), false, None);
+                c.nums[0] = cc;
+                let buf = buf_for(r, &c);
+                if let Obs::Enc(Some(n), out) = s.op(enc_op(&c, buf)) { s.op(Op::Decode(out[..n].to_vec())); }
+            });
+        }
+    }
+    // message bodies up to the SMBus limit
+    let reps = g.n(1, 4);
+    for total in (12..=259usize).filter(|t| reps > 1 || t % 3 == 0 || *t > 250) {
+        for key in [(true, 20u32), (false, 31), (true, 32), (false, 33)] {
+            if key.1 == 20 && total < 14 { continue; }
+            let cfg = gen_cfg(&mut g.rng);
+            g.case("len", &cfg, |s, r| {
+                let c = gen_call(r, key, false, Some(total));
+                let buf = buf_for(r, &c);
+                if let Obs::Enc(Some(n), out) = s.op(enc_op(&c, buf)) { s.op(Op::Decode(out[..n].to_vec())); }
+            });
+        }
+    }
+}
+
+// ------------------------------------------------------------------------------------------------ C11
+fn c11(g: &mut Gen) {
+    let full = g.thorough;
+    let mut r = g.rng.fork();
+    let mut grid: Vec<(String, Vec<u8>)> = Vec::new();
+    control_grid(full, &mut r, &mut |s, p| grid.push((s.to_string(), p)));
+    for (st, p) in grid {
+        let cfg = gen_cfg(&mut g.rng);
+        g.case(&st, &cfg, |s, r| {
+            s.op(Op::Decode(p.clone()));
+            let b = pbuf(r, 64, 64);
+            s.op(Op::Process(p, b));
+        });
+    }
+    let n = g.n(4000, 150_000);
+    for _ in 0..n {
+        let cfg = gen_cfg(&mut g.rng);
+        g.case("mix", &cfg, |s, r| {
+            let p = any_packet(s, r);
+            s.op(Op::Decode(p.clone()));
+            let b = pbuf(r, 64, 64);
+            s.op(Op::Process(p, b));
+        });
+    }
+}
+
+// ------------------------------------------------------------------------------------------------ requests
+/// a well-formed control request from requester `src` (address = EID), built without the library
+fn request(src: u8, inst: u8, cmd: u8, data: &[u8], r: &mut Rng) -> Vec<u8> {
+    build_packet(r.below(128) as u8, src, 1, r.byte(), src, if r.chance(3, 4) { 0xC8 } else { 0xC0 | r.below(16) as u8 }, 0, &ctl_body(true, false, false, inst, cmd, None, data))
+}
+
+fn answerable_request(nvend: usize, cmd: u8, src: u8, inst: u8, r: &mut Rng) -> Vec<u8> {
+    let data: Vec<u8> = match cmd {
+        1 => vec![r.pick(&[0u8, 1, 0, 1, 3]), 1 + r.below(254) as u8],
+        4 => vec![r.pick(&[0xFFu8, 0, 1, 2, 3, 0x55])],
+        6 => vec![r.below(nvend as u64) as u8],
+        _ => if r.chance(1, 6) { { let k_ = 1 + r.below(4) as usize; r.bytes(k_) } } else { vec![] },
+    };
+    request(src, inst, cmd, &data, r)
+}
+
+// ------------------------------------------------------------------------------------------------ C12
+fn c12(g: &mut Gen) {
+    // requester 0..127 x instance 0..31 x six commands
+    for src in 0..128u32 {
+        let cfg = gen_cfg(&mut g.rng);
+        let reps = g.n(1, 8);
+        g.case("grid", &cfg, |s, r| {
+            for _ in 0..reps {
+                for cmd in 1..=6u8 {
+                    let inst = if r.chance(1, 2) { 0 } else { r.below(32) as u8 };
+                    let p = answerable_request(s_nvend(s), cmd, src as u8, inst, r);
+                    let b = pbuf(r, 64, 39);
+                    s.op(Op::Process(p, b));
+                }
+            }
+        });
+    }
+    for inst in 0..32u32 {
+        let cfg = gen_cfg(&mut g.rng);
+        g.case("inst", &cfg, |s, r| {
+            for cmd in 1..=6u8 {
+                let p = answerable_request(s_nvend(s), cmd, r.below(128) as u8, inst as u8, r);
+                let b = pbuf(r, 64, 0);
+                s.op(Op::Process(p, b));
+            }
+        });
+    }
+    // after random histories
+    let n = g.n(300, 12_000);
+    for _ in 0..n {
+        let cfg = gen_cfg(&mut g.rng);
+        g.case("hist", &cfg, |s, r| {
+            history(s, r.below(10) as usize, r);
+            let cmd = 1 + r.below(6) as u8;
+            let inst = if r.chance(2, 3) { 0 } else { r.below(32) as u8 };
+            let p = answerable_request(s_nvend(s), cmd, r.below(128) as u8, inst, r);
+            let b = pbuf(r, 64, 39);
+            s.op(Op::Process(p, b));
+        });
+    }
+}
+
+fn s_nvend(s: &Session) -> usize { s.nvend }
+
+/// a random sequence of operations of every kind
+fn history(s: &mut Session, len: usize, r: &mut Rng) {
+    for _ in 0..len {
+        match r.below(20) {
+            0..=3 => { // valid Set EID (Set / Force / Discovered / illegal op rarely)
+                let op = if r.chance(1, 12) { r.pick(&[2u8, 4, 0x80]) } else { r.pick(&[0u8, 1, 0, 1, 3]) };
+                let p = request(r.below(128) as u8, r.below(32) as u8, 1, &[op, 1 + r.below(254) as u8], r);
+                let b = pbuf(r, 64, 0); s.op(Op::Process(p, b));
+            }
+            4..=7 => { // the other answerable requests
+                let cmd = 2 + r.below(5) as u8;
+                let p = answerable_request(s.nvend, cmd, r.below(128) as u8, r.below(32) as u8, r);
+                let b = pbuf(r, 64, 0); s.op(Op::Process(p, b));
+            }
+            8 => { // selectors at / above n
+                let sel = if r.chance(1, 2) { s.nvend as u8 } else { r.pick(&[0xFFu8, 0xFE, 0x80, 17]) };
+                let p = request(r.below(128) as u8, 0, 6, &[sel], r);
+                let b = poison(r, 64, 1); s.op(Op::Process(p, b));
+            }
+            9..=10 => { // corrupted copies of valid Set EID requests
+                let p = request(r.below(128) as u8, 0, 1, &[r.below(2) as u8, 1 + r.below(254) as u8], r);
+                let q = corrupt(r, &p);
+                let b = pbuf(r, 64, 0); s.op(Op::Process(q, b));
+            }
+            11..=12 => { let p = any_packet(s, r); let b = pbuf(r, 64, 0); s.op(Op::Process(p, b)); }
+            13 => { let p = any_packet(s, r); s.op(Op::Decode(p)); }
+            14 => { let p = any_packet(s, r); s.op(Op::GetLength(p)); }
+            15 => { s.op(Op::SetEid(r.chance(1, 2), r.cbyte())); }
+            16 => { let u = r.bytes(16); s.op(Op::SetUuid(u)); }
+            17 => { // responses (never answered)
+                let cmd = 1 + r.below(6) as u8;
+                let dl = fixed_resp_len(cmd).unwrap_or(2);
+                let d = r.bytes(dl);
+                let src = r.below(128) as u8;
+                let p = build_packet(0x11, src, 1, 0x22, src, 0xC8, 0, &ctl_body(false, false, false, 0, cmd, Some(if r.chance(1, 2) { 0 } else { r.below(6) as u8 }), &d));
+                let b = pbuf(r, 64, 0); s.op(Op::Process(p, b));
+            }
+            _ => { // encoder calls on either half
+                let keys = all_keys();
+                let key = keys[r.below(keys.len() as u64) as usize];
+                let c = gen_call(r, key, false, None);
+                let b = buf_for(r, &c);
+                s.op(enc_op(&c, b));
+            }
+        }
+    }
+}
+
+// ------------------------------------------------------------------------------------------------ C13
+fn c13(g: &mut Gen) {
+    let n = g.n(500, 20_000);
+    for _ in 0..n {
+        let cfg = gen_cfg(&mut g.rng);
+        g.case("hist", &cfg, |s, r| {
+            let len = 1 + r.below(40) as usize;
+            history(s, len, r);
+            // finish by asking for the EID
+            let p = request(r.below(128) as u8, 0, 2, &[], r);
+            let b = poison(r, 64, 1); s.op(Op::Process(p, b));
+        });
+    }
+    // every EID 0x01..0xFE through both assigning operations
+    let cfg = gen_cfg(&mut g.rng);
+    g.case("eids", &cfg, |s, r| {
+        for e in 1..=254u32 {
+            let p = request(r.below(128) as u8, 0, 1, &[(e % 2) as u8, e as u8], r);
+            let b = poison(r, 64, 2); s.op(Op::Process(p, b));
+            if e % 5 == 0 { let q = request(9, 0, 2, &[], r); let b = poison(r, 64, 2); s.op(Op::Process(q, b)); }
+        }
+    });
+}
+
+// ------------------------------------------------------------------------------------------------ C14
+fn c14(g: &mut Gen) {
+    let reps = g.n(6, 200);
+    for n in 1..=16usize {
+        for _ in 0..reps {
+            let mut cfg = gen_cfg(&mut g.rng);
+            cfg.vendor_ids = (0..n).map(|_| ((g.rng.below(2)) as u8, (g.rng.next() >> 16) as u32, (g.rng.next() >> 20) as u16)).collect();
+            g.case("walk", &cfg, |s, r| {
+                // the walk a requester performs: start at 0, follow the returned selector until 0xFF
+                let mut sel = 0u8;
+                for _ in 0..20 {
+                    let p = request(r.below(128) as u8, 0, 6, &[sel], r);
+                    let b = pbuf(r, 64, 0);
+                    match s.op(Op::Process(p, b)) {
+                        Obs::ProcOk(_, _, _, Some(len), out) if len >= 13 => { sel = out[12]; if sel == 0xFF { break; } }
+                        _ => break,
+                    }
+                }
+                // then selectors in random order, interleaved with other traffic
+                for _ in 0..(2 * n) {
+                    if r.chance(1, 4) { history(s, 1, r); }
+                    let p = request(r.below(128) as u8, r.below(32) as u8, 6, &[r.below(n as u64) as u8], r);
+                    let b = pbuf(r, 64, 0); s.op(Op::Process(p, b));
+                }
+            });
+        }
+    }
+    // every order of selectors for n <= 4
+    for n in 1..=4usize {
+        let mut perm: Vec<u8> = (0..n as u8).collect();
+        let mut perms: Vec<Vec<u8>> = Vec::new();
+        permute(&mut perm, 0, &mut perms);
+        for pm in perms {
+            let mut cfg = gen_cfg(&mut g.rng);
+            cfg.vendor_ids = (0..n).map(|i| ((i % 2) as u8, 0x01020304u32.wrapping_mul(i as u32 + 3), 0x0A0B + i as u16)).collect();
+            g.case("perm", &cfg, |s, r| {
+                for sel in pm { let p = request(5, 0, 6, &[sel], r); let b = poison(r, 64, 1); s.op(Op::Process(p, b)); }
+            });
+        }
+    }
+}
+fn permute(a: &mut Vec<u8>, k: usize, out: &mut Vec<Vec<u8>>) {
+    if k == a.len() { out.push(a.clone()); return; }
+    for i in k..a.len() { a.swap(k, i); permute(a, k + 1, out); a.swap(k, i); }
+}
+
+// ------------------------------------------------------------------------------------------------ C15
+fn c15(g: &mut Gen) {
+    let reps = g.n(4, 150);
+    for n in 0..=30usize {
+        for _ in 0..reps {
+            let mut cfg = gen_cfg(&mut g.rng);
+            cfg.msg_types = g.rng.bytes(n);
+            g.case("ident", &cfg, |s, r| {
+                for _ in 0..(1 + r.below(4)) {
+                    if r.chance(1, 2) { history(s, r.below(6) as usize, r); }
+                    if r.chance(2, 3) { let u = r.bytes(16); s.op(Op::SetUuid(u)); }
+                    for cmd in [5u8, 3, 4] {
+                        let p = answerable_request(s.nvend, cmd, r.below(128) as u8, r.below(32) as u8, r);
+                        let b = pbuf(r, 64, 29); s.op(Op::Process(p, b));
+                    }
+                }
+            });
+        }
+    }
+}
+
+// ------------------------------------------------------------------------------------------------ C02
+fn c02(g: &mut Gen) {
+    // a wrong PEC in each of the five decoder arms, separately
+    let reps = g.n(40, 1500);
+    for ty in [0x00u8, 0x05, 0x06, 0x7E, 0x7F] {
+        for _ in 0..reps {
+            let cfg = gen_cfg(&mut g.rng);
+            g.case("arm", &cfg, |s, r| {
+                let src = r.below(128) as u8;
+                let body = if ty == 0 {
+                    match r.below(3) {
+                        0 => ctl_body(true, false, false, 0, 1, None, &[r.below(2) as u8, 1 + r.below(254) as u8]),
+                        1 => { let cmd = r.below(9) as u8; let dl = fixed_req_len(cmd).unwrap_or(0); let d = r.bytes(dl); ctl_body(true, false, false, r.below(32) as u8, cmd, None, &d) }
+                        _ => { let cmd = r.pick(&[1u8, 3, 4, 5, 6]); let dl = fixed_resp_len(cmd).unwrap_or(3); let d = r.bytes(dl); ctl_body(false, false, false, 0, cmd, Some(0), &d) }
+                    }
+                } else { let k = 1 + r.below(12) as usize; r.bytes(k) };
+                let good = build_packet(r.below(128) as u8, src, 1, r.byte(), src, 0xC8, ty, &body);
+                let mut bad = good.clone();
+                let l = bad.len();
+                if r.chance(1, 2) { bad[l - 1] ^= 1 << r.below(8); } else { bad[l - 1] = bad[l - 1].wrapping_add(1 + r.below(255) as u8); }
+                s.op(Op::Decode(bad.clone()));
+                let b = pbuf(r, 64, 0); s.op(Op::Process(bad, b));
+                // the same endpoint afterwards: the good packet, then its state
+                let b = pbuf(r, 64, 0); s.op(Op::Process(good, b));
+                let q = request(7, 0, 2, &[], r); let b = poison(r, 64, 0); s.op(Op::Process(q, b));
+            });
+        }
+    }
+    // every burst window (start bit x 255 patterns) of valid packets: complete for one packet per encoder in thorough
+    let keys = all_keys();
+    let nk = g.n(3, keys.len());
+    for ki in 0..nk {
+        let key = keys[(ki * 7) % keys.len()];
+        let cfg = gen_cfg(&mut g.rng);
+        let pats: u32 = if g.thorough { 255 } else { 6 };
+        let thorough = g.thorough;
+        g.case("burst", &cfg, |s, r| {
+            let tl = 14 + r.below(6) as usize;
+            let c = gen_call(r, key, false, Some(tl));
+            let buf = vec![0u8; expected_len(&c).unwrap_or(12)];
+            let p = match encode_obs(s.alt, c.req, c.id, &c.nums, &c.lists, &buf) { Obs::Enc(Some(n), out) => out[..n].to_vec(), _ => gen_packet(r, true) };
+            for start in 0..(p.len() * 8) {
+                for k in 0..pats {
+                    let pat: u8 = if thorough { (k + 1) as u8 } else { 1 + r.below(255) as u8 };
+                    let mut q = p.clone();
+                    for j in 0..8 { if pat & (0x80 >> j) != 0 { let bit = start + j; if bit / 8 < q.len() { q[bit / 8] ^= 0x80 >> (bit % 8); } } }
+                    if q != p { s.op(Op::Decode(q)); }
+                }
+            }
+        });
+    }
+    // histories with corrupted Set EID packets interleaved
+    let n = g.n(300, 12_000);
+    for _ in 0..n {
+        let cfg = gen_cfg(&mut g.rng);
+        g.case("hist", &cfg, |s, r| {
+            for _ in 0..(2 + r.below(10)) {
+                if r.chance(1, 2) {
+                    let p = request(r.below(128) as u8, 0, 1, &[r.below(2) as u8, 1 + r.below(254) as u8], r);
+                    let q = if r.chance(2, 3) { corrupt(r, &p) } else { p };
+                    let b = pbuf(r, 64, 0); s.op(Op::Process(q, b));
+                } else { history(s, 1, r); }
+            }
+            let q = request(7, 0, 2, &[], r); let b = poison(r, 64, 0); s.op(Op::Process(q, b));
+        });
+    }
+}
+
+// ------------------------------------------------------------------------------------------------ C18
+const FIELD_LEN: [usize; 29] = [4, 4, 4, 4, 4, 4, 4, 4, 4, 1, 1, 2, 2, 2, 2, 2, 4, 4, 4, 4, 4, 4, 4, 4, 4, 4, 4, 2, 4];
+const PRIVATE_FIELDS: [u32; 4] = [0, 9, 13, 23];
+
+fn c18(g: &mut Gen) {
+    let cfg = simple_cfg(0);
+    let thorough = g.thorough;
+    for fld in 0..29u32 {
+        if PRIVATE_FIELDS.contains(&fld) { continue; }
+        let len = FIELD_LEN[fld as usize];
+        // raw buffers: exhaustive for 1-byte views (and for 2-byte views in thorough), patterns + random for the rest
+        let mut raws: Vec<Vec<u8>> = Vec::new();
+        match len {
+            1 => for b in 0..256u32 { raws.push(vec![b as u8]); },
+            2 => {
+                if thorough { for v in 0..65536u32 { raws.push(vec![(v >> 8) as u8, v as u8]); } }
+                else { for b in 0..256u32 { raws.push(vec![b as u8, g.rng.byte()]); raws.push(vec![g.rng.byte(), b as u8]); } }
+            }
+            _ => {
+                raws.push(vec![0; 4]); raws.push(vec![0xFF; 4]);
+                for i in 0..32 { let w = 1u32 << i; raws.push(w.to_be_bytes().to_vec()); raws.push((!w).to_be_bytes().to_vec()); }
+                if thorough { for i in 0..32 { for j in 0..i { let w = (1u32 << i) | (1u32 << j); raws.push(w.to_be_bytes().to_vec()); } } }
+                let k = g.n(200, 20_000);
+                for _ in 0..k { raws.push(g.rng.bytes(4)); }
+            }
+        }
+        let maxv: u64 = match fld { 27 => 0xFFFF, 28 => 0xFFFF_FFFF, _ => 0xFF };
+        for chunk in raws.chunks(256) {
+            g.case("field", &cfg, |s, r| {
+                for raw in chunk {
+                    s.op(Op::Hdr { what: 0, fld, raw: raw.clone(), v: 0 });
+                    let vs: [u64; 5] = [0, 1, maxv, r.next() & maxv, r.cbyte() as u64 & maxv];
+                    let v = vs[r.below(5) as usize];
+                    s.op(Op::Hdr { what: 1, fld, raw: raw.clone(), v: v as u32 });
+                }
+            });
+        }
+        // every value written into a fixed buffer
+        if maxv == 0xFF {
+            g.case("values", &cfg, |s, r| {
+                let raw = r.bytes(len);
+                for v in 0..256u32 { s.op(Op::Hdr { what: 1, fld, raw: raw.clone(), v }); }
+            });
+        }
+    }
+    // validators: every first byte x several versions; every body header byte
+    g.case("validators", &cfg, |s, r| {
+        for b in 0..256u32 {
+            for v in [1u32, 0, 2, 15, (b & 15), 0x11] {
+                s.op(Op::Hdr { what: 2, fld: 0, raw: vec![b as u8, r.byte(), r.byte(), r.byte()], v });
+            }
+            s.op(Op::Hdr { what: 3, fld: 0, raw: vec![b as u8], v: 0 });
+        }
+    });
+    // constructors
+    g.case("ctors", &cfg, |s, r| {
+        for v in 0..256u32 { s.op(Op::Hdr { what: 4, fld: 0, raw: vec![], v }); }
+        for _ in 0..300 {
+            let cmd = if r.chance(3, 4) { r.below(21) as u8 } else { r.byte() };
+            s.op(Op::Hdr { what: 5, fld: 0, raw: vec![r.below(2) as u8, r.below(2) as u8, r.byte(), cmd], v: 0 });
+            s.op(Op::Hdr { what: 6, fld: 0, raw: vec![r.below(4) as u8, r.byte(), r.byte(), r.byte()], v: 0 });
+            s.op(Op::Hdr { what: 7, fld: 0, raw: vec![], v: (r.next() & 0xFFFF) as u32 });
+            s.op(Op::Hdr { what: 8, fld: 0, raw: vec![], v: (r.next() >> 7) as u32 });
+        }
+        for mt in [0u32, 5, 6, 0x7E, 0x7F, 0xFF] { s.op(Op::Hdr { what: 9, fld: 0, raw: vec![], v: mt }); }
+    });
+}
+
+// ------------------------------------------------------------------------------------------------ C19
+fn c19(g: &mut Gen) {
+    let cfg = simple_cfg(0);
+    for what in 0..3u32 {
+        g.case("conv", &cfg, |s, _| {
+            for b in 0..256u32 { s.op(Op::Conv(what, b as u8)); }
+        });
     }
 }
